@@ -19,7 +19,7 @@ def sh(cmd, cwd=None, timeout=1800):
 
 for f in ('patch.diff', 'DEMO.py', 'NOTE.md'):
     shutil.copy(src + '/' + f, out + '/' + f)
-meta = {'property': pid, 'source': 'fresh sub-agent given only the property text and a scratch worktree (round 2: two unrelated seeds per agent)',
+meta = {'property': pid, 'source': 'fresh sub-agent given only the property text and a scratch worktree (round given by the name suffix)',
         'date': time.strftime('%Y-%m-%d')}
 sh('git checkout -- glom', wt)
 rc0, d0 = sh('/venv/bin/python %s/DEMO.py' % sub, wt, 300)
